@@ -222,10 +222,34 @@ const VIOL0: Viol = Viol {
 static VIOLS: [Viol; VIOL_SLOTS] = [VIOL0; VIOL_SLOTS];
 static VIOL_COUNT: AtomicUsize = AtomicUsize::new(0);
 
+/// Diagnostics: print a backtrace to stderr at every violation (the drivers switch it on when
+/// the environment variable `TALLOC_TRACE` is set)
+static TRACE: AtomicBool = AtomicBool::new(false);
+
+pub fn set_trace_violations(on: bool) {
+    TRACE.store(on, Ordering::SeqCst);
+}
+
+/// Switches the diagnostics on if `TALLOC_TRACE` is set in the environment
+pub fn trace_from_env() {
+    if std::env::var_os("TALLOC_TRACE").is_some() {
+        set_trace_violations(true);
+    }
+}
+
 #[cold]
+#[inline(never)]
 fn violation(kind: usize, addr: usize, given: usize, recorded: usize) {
     if OVERFLOW.load(Ordering::Relaxed) {
         return;
+    }
+    if TRACE.load(Ordering::Relaxed) && SUPPRESS.try_with(|s| s.get() < 1000).unwrap_or(false) {
+        let _ = SUPPRESS.try_with(|s| s.set(s.get() + 1000));
+        eprintln!(
+            "talloc: violation kind {kind} address {addr:#x} given {given} recorded {recorded}\n{}",
+            std::backtrace::Backtrace::force_capture()
+        );
+        let _ = SUPPRESS.try_with(|s| s.set(s.get() - 1000));
     }
     let n = VIOL_COUNT.fetch_add(1, Ordering::AcqRel);
     let v = &VIOLS[n % VIOL_SLOTS];
@@ -398,32 +422,33 @@ unsafe impl GlobalAlloc for TrackingAlloc {
             }
             return fresh;
         }
+        // The entry leaves the table BEFORE `System` gets to free the block: the moment realloc has
+        // released the old address another thread can be handed that address, and it must not
+        // find this entry there.  (While the call runs the block is in nobody's table entry;
+        // nobody but the caller may refer to it anyway.)
+        slot.key.store(TOMB, Ordering::Release);
         let p = System.realloc(ptr, layout, new_size);
-        if p.is_null() {
-            return p;
-        }
         let gen = meta >> 8;
         let counted = gen != 0 && gen == CUR_GEN.load(Ordering::Relaxed);
-        if p == ptr {
-            slot.size.store(new_size, Ordering::Relaxed);
-        } else {
-            slot.key.store(TOMB, Ordering::Release);
+        // on failure the old block is still the caller's
+        let (now_addr, now_size) = if p.is_null() { (addr, size) } else { (p as usize, new_size) };
+        if now_addr != addr {
             note_freed(addr, size);
-            match insert(p as usize, new_size, meta) {
-                Some(new_slot) => {
-                    if counted {
-                        let j = JOURNAL_LEN.fetch_add(1, Ordering::Relaxed);
-                        if j < JOURNAL_SLOTS {
-                            JOURNAL[j].store(new_slot, Ordering::Relaxed);
-                        }
-                    }
-                }
-                None => OVERFLOW.store(true, Ordering::SeqCst),
-            }
         }
         // the grown block keeps the tag of the block it was made from
-        if counted {
-            SCOPE_BYTES.fetch_add(new_size, Ordering::Relaxed);
+        match insert(now_addr, now_size, meta) {
+            Some(new_slot) => {
+                if counted && new_slot != i {
+                    let j = JOURNAL_LEN.fetch_add(1, Ordering::Relaxed);
+                    if j < JOURNAL_SLOTS {
+                        JOURNAL[j].store(new_slot, Ordering::Relaxed);
+                    }
+                }
+            }
+            None => OVERFLOW.store(true, Ordering::SeqCst),
+        }
+        if counted && now_size != size {
+            SCOPE_BYTES.fetch_add(now_size, Ordering::Relaxed);
             SCOPE_BYTES.fetch_sub(size, Ordering::Relaxed);
         }
         p
